@@ -384,6 +384,7 @@ const preludeSMT = `
 (declare-datatypes ((Iface 0)) (((mk_iface (i_typ Int) (i_val Int)))))
 (define-fun nilslice () Slice (mk_slice 0 0 0 0))
 ; element position of index i of slice s inside its backing array (a symbol, so that it can serve as a trigger)
+(declare-fun objtype (Int) Int)
 (declare-fun sidx (Slice Int) Int)
 (assert (forall ((s Slice) (i Int)) (! (= (sidx s i) (+ (s_off s) i)) :pattern ((sidx s i)))))
 (define-fun nilif () Iface (mk_iface 0 0))
